@@ -1,0 +1,7 @@
+//go:build !verif
+
+package mfs
+
+// verifRepubPoint is a schedule point used by verification builds
+// (-tags verif); in normal builds it is empty and inlined away.
+func verifRepubPoint(string) {}
